@@ -9,7 +9,7 @@ CONSTANTS
   Costs = {1}
   Steps = {1, 2, 3, 4, 7}
   Start = 0
-  MaxNow = 8
+  MaxNow = 7
   RenewAt = {}
   GenDepth = 0
   ReqWeight = 1
